@@ -87,3 +87,54 @@ func VerifC10_CredentialURL() {
 		verifAssert(credsURL.Scheme == reqScheme && credsURL.Host == reqHost, "the credential helper is asked for the scheme and host[:port] the request goes to")
 	}
 }
+
+// ---- redirect chains on the authenticated API path
+
+type verifChainTransport struct{}
+
+var (
+	verifAuthHops     int
+	verifAuthChainLen int
+)
+
+func verifAuthServe(req *http.Request) (*http.Response, error) {
+	k := verifAuthHops
+	verifAuthHops++
+	res := &http.Response{StatusCode: 200, Header: http.Header{}, Body: http.NoBody, Request: req}
+	if k < verifAuthChainLen {
+		res.StatusCode = 307
+		res.Header.Set("Location", "https://"+[]string{"a.example.com", "b.example.com", "c.example.com"}[k%3]+"/next")
+	}
+	return res, nil
+}
+
+func (verifChainTransport) RoundTrip(req *http.Request) (*http.Response, error) { return verifAuthServe(req) }
+
+func verifAuthClientDo(cli *http.Client, req *http.Request) (*http.Response, error) {
+	return verifAuthServe(req)
+}
+
+// VerifC10_AuthRedirectChain: API requests (batch, locks, verify) go through
+// DoWithAuth; a server that keeps redirecting them is followed for a small
+// fixed number of hops only, then refused.
+func VerifC10_AuthRedirectChain() {
+	verifOverride("(*net/http.Client).Do", verifAuthClientDo)
+	verifOverride("github.com/rubyist/tracerx.Printf", func(format string, args ...interface{}) {})
+	lfshttp.VerifTransport = verifChainTransport{}
+	verifAuthHops = 0
+	verifAuthChainLen = verifChoose("chain.length", verifBound("chain", 8, 12))
+	hc := lfshttp.VerifNewClient()
+	c := &Client{Endpoints: verifEF{gitRemote: "https://start.example.com/repo.git"}, client: hc,
+		credContext: creds.NewCredentialHelperContext(hc.GitEnv(), hc.OSEnv()), access: creds.AllAccessModes()}
+	req, err := http.NewRequest("POST", "https://start.example.com/repo.git/info/lfs/objects/batch", nil)
+	verifAssert(err == nil, "request construction")
+	verifKnown("C10-F16-auth-path-hop-limit-not-enforced", verifAuthChainLen >= 3)
+	res, derr := c.DoWithAuth("origin", creds.NewAccess(creds.NoneAccess, "https://start.example.com/repo.git/info/lfs"), req)
+	verifCover("chain-followed")
+	verifAssert(verifAuthHops <= 3, "a redirect chain is cut off after a small fixed number of hops")
+	if verifAuthChainLen < 3 {
+		verifAssert(derr == nil && res != nil && res.StatusCode == 200, "a short chain is followed to its end")
+	} else {
+		verifAssert(derr != nil, "a long chain is refused with an error")
+	}
+}
